@@ -298,6 +298,53 @@ void h_free_delayed(void) {
 }
 #endif
 
+#ifdef HARNESS_h_generic
+/* the generic allocation path (C04 huge zeroing, C06 "fails only after a forced collect and a second attempt", C08 periodic
+   drain of the delayed list, C01 singleton pages move to the full queue); mi_find_page / mi_heap_collect are stubs */
+static int n_find, n_collect, n_collect_forced, n_drain, n_deferred, n_to_full, find_fail_budget;
+static int collect_at, find2_at, seq;
+mi_page_t* stub_find_page(mi_heap_t* heap, size_t size, size_t huge_alignment) {
+  n_find++; if (n_find == 2) find2_at = ++seq;
+  CHECK(heap == &HEAP && size <= BS, "find_page is asked for the caller's heap and size");
+  if (nd_bool()) return NULL;                       /* out of memory (OS refused) */
+  return &PG;
+}
+void stub_heap_collect(mi_heap_t* heap, bool force) mi_attr_noexcept { n_collect++; if (force) { n_collect_forced++; collect_at = ++seq; } }
+void stub_deferred_free(mi_heap_t* heap, bool force) { n_deferred++; }
+bool stub_delayed_free_partial2(mi_heap_t* heap) { n_drain++; return true; }
+void stub_page_to_full(mi_page_t* page, mi_page_queue_t* pq) { CHECK(page == &PG, "this page"); n_to_full++; }
+static mi_page_queue_t DUMMYQ;
+mi_page_queue_t* stub_page_queue_of(const mi_page_t* page) { return &DUMMYQ; }
+void h_generic(void) {
+  make_page(false, NBLK);
+  ASSUME(PG.free != NULL);
+  PG.is_huge = nd_bool();
+  bool zero = nd_bool();
+  size_t gc0 = nd_size() % 200; HEAP.generic_count = gc0; HEAP.generic_collect_count = 0;
+  size_t fm = mask_of(FREE);
+  snapshot();
+  uint16_t used0 = PG.used;
+  size_t size = nd_size(); ASSUME(size >= MI_PADDING_SIZE && size <= BS);
+  void* p = _mi_malloc_generic(&HEAP, size, zero, 0);
+  if (gc0 + 1 >= 100) { CHECK(n_drain == 1 && n_deferred == 1 && HEAP.generic_count == 0, "C08: the delayed-free list is drained at least every 100 generic allocations"); WITNESS("periodic drain"); }
+  else CHECK(n_drain == 0 && HEAP.generic_count == gc0 + 1, "generic count advances");
+  if (p == NULL) {
+    CHECK(n_find == 2 && n_collect_forced == 1 && collect_at < find2_at, "C06/C07: NULL only after a forced collect and a second failed attempt");
+    CHECK(n_err == 1 && errs[0] == ENOMEM, "out of memory is reported once (ENOMEM)");
+    CHECK(PG.used == used0 && walk(PG.free, "") == fm, "C07: a failed allocation changes nothing in the page");
+    check_live_untouched(0);
+    WITNESS("out of memory");
+  } else {
+    CHECK(n_err == 0 && in_area(p) && ((fm >> idx_of(p)) & 1), "C01: the block comes from the free list of the page that was found");
+    CHECK(PG.used == used0 + 1, "used incremented");
+    if (zero) { check_zero((const uint8_t*)p, (MI_PADDING_SIZE > 0 && !PG.is_huge ? size - MI_PADDING_SIZE : BS - MI_PADDING_SIZE)); if (PG.is_huge) WITNESS("huge zero"); else WITNESS("zero"); }
+    CHECK(n_to_full == (PG.reserved == PG.used ? 1 : 0), "a page without free capacity left moves to the full queue");
+    check_live_untouched(0);
+    WITNESS("allocated");
+  }
+}
+#endif
+
 #ifdef HARNESS_h_extend
 /* C01.4: free-list extension only within reserved capacity */
 void h_extend(void) {
